@@ -254,6 +254,11 @@ def r4_repr(rep, ctx):
             u = c.args[0] if c.args else next((k.value for k in c.keywords if k.arg == "unit"), None)
             units.append((c.func.attr, res.term(u) if u is not None else ("const", None)))
         same = len(units) == 2 and units[0][1] == units[1][1] and units[0][1][0] == "param"
+        # the suffix (unit text) is appended to the formatted value, never fed through the value's format pattern
+        nested = [c for c in calls if c.func.attr == "GetFormattedSuffix" and any(isinstance(p_, ast.Call) and isinstance(p_.func, ast.Attribute) and p_.func.attr in ("GetFormattedValue", "FormatFloat") and any(c is y for y in ast.walk(p_) if y is not p_)
+                                                                                     for p_ in own_nodes(fn.node))]
+        rep.check(not nested, "C20.R4", "%s.GetFormatted:suffix-not-formatted" % cname, "the unit suffix is concatenated after the formatted value",
+                  "%s.GetFormatted passes the unit suffix into the value's %%-format pattern: a unit symbol containing '%%' (percent) breaks str() of the value" % cname, fn=fn)
         rep.check(same, "C20.R4", "%s.GetFormatted:same-unit" % cname, "value and suffix are formatted for the same requested unit",
                   "%s.GetFormatted formats the value and the suffix for different units: %s" % (cname, [(a, show(b)) for a, b in units]), fn=fn)
     rep.floor("C20.R4", "display sites", n, 3)
